@@ -135,7 +135,8 @@ def run_tlc(module, cfg_text, *, workers=None, simulate=None, depth=None, seed=N
 
 
 def write_evidence(pid, tier, level, coverage, wall, violations, assumptions=None):
-    os.makedirs(os.path.join(VERIF, "evidence"), exist_ok=True)
+    evdir = os.environ.get("VERIF_EVIDENCE_DIR") or os.path.join(VERIF, "evidence")
+    os.makedirs(evdir, exist_ok=True)
     ev = {
         "property_id": pid,
         "tier": tier,
@@ -146,7 +147,7 @@ def write_evidence(pid, tier, level, coverage, wall, violations, assumptions=Non
         "wall_s": round(wall, 2),
         "violations": violations,
     }
-    path = os.path.join(VERIF, "evidence", f"{pid}.json")
+    path = os.path.join(evdir, f"{pid}.json")
     tmp = path + ".tmp"
     with open(tmp, "w") as fh:
         json.dump(ev, fh, indent=1, default=str)
@@ -155,10 +156,11 @@ def write_evidence(pid, tier, level, coverage, wall, violations, assumptions=Non
 
 
 def write_replay(pid, payload):
-    os.makedirs(os.path.join(VERIF, "replays"), exist_ok=True)
+    rdir = os.environ.get("VERIF_REPLAY_DIR") or os.path.join(VERIF, "replays")
+    os.makedirs(rdir, exist_ok=True)
     blob = json.dumps(payload, sort_keys=True, default=str)
     h = hashlib.sha1(blob.encode()).hexdigest()[:12]
-    path = os.path.join(VERIF, "replays", f"{pid}-{h}.json")
+    path = os.path.join(rdir, f"{pid}-{h}.json")
     with open(path, "w") as fh:
         fh.write(blob)
     return path
